@@ -287,6 +287,14 @@ func (s *secretStore) registerChainKey(ctx context.Context, group *protocoltypes
 
 	s.messageMutex.Lock()
 
+	// the check above is done without the lock: another registration of this
+	// device may have completed in the meantime, registering again would
+	// rewind its chain key
+	if _, err := s.getDeviceChainKeyForGroupAndDevice(ctx, groupPublicKey, devicePublicKey); err == nil {
+		s.messageMutex.Unlock()
+		return nil
+	}
+
 	if deviceChainKey, err = s.preComputeKeys(ctx, devicePublicKey, groupPublicKey, deviceChainKey); err != nil {
 		s.messageMutex.Unlock()
 		return errcode.ErrCode_ErrCryptoKeyGeneration.Wrap(err)
